@@ -593,4 +593,219 @@ theorem ModOK.step (cfg : Cfg) (w : Nat) (nr : Bool) (p : Pair) (g : Ghost) (op 
               rw [(inc_algebra ys.length (countS1 s1 ys) (countS1 i ys) hyl).2, hlen, hys, countS1_append]
               simp [countS1, d]
 
+def noReset (h : List LOp) : Bool := h.all (fun op => !isReset op)
+def wfAll (w : Nat) (h : List LOp) : Bool := h.all (opWF w)
+
+@[simp] theorem step_dfl (cfg : Cfg) (p : Pair) (op : LOp) : (p.step cfg op).dfl = p.dfl := by
+  cases op <;> simp [Pair.step]
+
+@[simp] theorem run_dfl (cfg : Cfg) (p : Pair) (h : List LOp) : (p.run cfg h).dfl = p.dfl := by
+  induction h generalizing p with
+  | nil => rfl
+  | cons op t ih => simp only [Pair.run, List.foldl_cons] at ih ⊢; rw [ih]; simp
+
+/-- both invariants along a whole local history -/
+theorem Inv.run (cfg : Cfg) (w : Nat) (h : List LOp) : ∀ (nr : Bool) (p : Pair) (g : Ghost),
+    ExpOK w p g.recs → ModOK cfg w nr p g → wfAll w h = true → incPre g h = true →
+    (cfg.n1Clear = true ∨ (nr = true ∧ noReset h = true ∧ cfg.ctorJunk = false)) →
+    ExpOK w (p.run cfg h) (g.run h).recs ∧ ModOK cfg w (nr && noReset h) (p.run cfg h) (g.run h) := by
+  induction h with
+  | nil => intro nr p g he hm _ _ _; simpa [Pair.run, Ghost.run, noReset] using ⟨he, hm⟩
+  | cons op t ih =>
+    intro nr p g he hm hwf hpre hc
+    simp only [wfAll, List.all_cons, Bool.and_eq_true] at hwf
+    simp only [incPre, Bool.and_eq_true] at hpre
+    have hc1 : cfg.n1Clear = true ∨ (nr = true ∧ cfg.ctorJunk = false) := by
+      rcases hc with h | ⟨a, _, c⟩
+      · exact Or.inl h
+      · exact Or.inr ⟨a, c⟩
+    have hm' := ModOK.step cfg w nr p g op he hm hwf.1 hpre.1 hc1
+    have he' := ExpOK.step cfg w p g op he
+    have hc2 : cfg.n1Clear = true ∨ ((nr && !isReset op) = true ∧ noReset t = true ∧ cfg.ctorJunk = false) := by
+      rcases hc with h | ⟨a, b, c⟩
+      · exact Or.inl h
+      · simp only [noReset, List.all_cons, Bool.and_eq_true] at b
+        exact Or.inr ⟨by simp [a, b.1], by simpa [noReset] using b.2, c⟩
+    have := ih (nr && !isReset op) (p.step cfg op) (g.step op) he' hm' (by simpa [wfAll] using hwf.2) hpre.2 hc2
+    simp only [Pair.run, Ghost.run, List.foldl_cons]
+    have hb : (nr && !isReset op && noReset t) = (nr && noReset (op :: t)) := by
+      simp [noReset, Bool.and_assoc]
+    rw [← hb]
+    exact this
+
+/-- **model_mirrors_history** (one pair; `incremental_sync_invariant` is its third clause).
+    For every local history that is well formed and in which every `sync(s,a,s1)` respects the documented
+    precondition (exactly one new record for the pair since its last sync, and it went to `s1`):
+    * the experience getters are the statistics of the records since the last reset;
+    * if the pair was ever synced with data, its row is the empirical frequencies and its reward the
+      empirical mean of the data present at its last effective sync;
+    * otherwise the row is the fixed default unit row with reward 0 (over initialised storage);
+    * a pair with data whose last call was a sync is up to date (absorbed data = all data).
+    Hypothesis forced by the proof: the `visitSum == 1` branch of `sync(s,a,s1)` as written is only
+    right on a default row — so either the repaired branch (`n1Clear`), or no `reset` in the history and
+    no uninitialised constructor storage. -/
+theorem model_mirrors_history (cfg : Cfg) (w dfl idx : Nat) (h : List LOp)
+    (hwf : wfAll w h = true) (hpre : incPre Ghost.init h = true)
+    (hc : cfg.n1Clear = true ∨ (noReset h = true ∧ cfg.ctorJunk = false)) :
+    let p := (Pair.init w dfl idx).run cfg h
+    let g := Ghost.init.run h
+    (p.cell.n = g.recs.length ∧ p.cell.mean = meanOf g.recs ∧ p.cell.m2 = sqDevOf g.recs ∧
+      ∀ i, i < w → nthN p.cnt i = countS1 i g.recs) ∧
+    (g.snap ≠ [] → (∀ i, i < w → nthQ p.row i = freqOf g.snap i) ∧ RewOK cfg p.rew (meanOf g.snap)) ∧
+    (cfg.ctorJunk = false → g.snap = [] → p.row = unit w dfl ∧ p.rew = 0) ∧
+    (g.pend = 0 → g.recs ≠ [] → g.snap = g.recs) := by
+  intro p g
+  have hc' : cfg.n1Clear = true ∨ (true = true ∧ noReset h = true ∧ cfg.ctorJunk = false) := by
+    rcases hc with a | ⟨a, b⟩
+    · exact Or.inl a
+    · exact Or.inr ⟨rfl, a, b⟩
+  obtain ⟨he, hm⟩ := Inv.run cfg w h true (Pair.init w dfl idx) Ghost.init
+    (by simpa [Ghost.init] using ExpOK.init w dfl idx) (ModOK.init cfg w dfl idx) hwf hpre hc'
+  refine ⟨he.spec, fun hs => ⟨hm.mRow hs, hm.mRew hs⟩, fun hj hs => ?_, fun h0 hne => ?_⟩
+  · have := hm.dflt hj hs
+    simpa [p, Pair.init] using this
+  · rcases hm.k1 h0 with e | e
+    · exact absurd e hne
+    · exact e
+
+/-- the same conclusion in the form the driver evaluates: every row entry equals `specRow` -/
+theorem model_row_eq_specRow (cfg : Cfg) (w dfl idx : Nat) (h : List LOp)
+    (hwf : wfAll w h = true) (hpre : incPre Ghost.init h = true)
+    (hc : cfg.n1Clear = true ∨ (noReset h = true ∧ cfg.ctorJunk = false)) (hj : cfg.ctorJunk = false) :
+    ∀ i, i < w → nthQ ((Pair.init w dfl idx).run cfg h).row i = specRow w dfl (Ghost.init.run h) i := by
+  intro i hi
+  obtain ⟨_, h2, h3, _⟩ := model_mirrors_history cfg w dfl idx h hwf hpre hc
+  unfold specRow
+  by_cases e : (Ghost.init.run h).snap = []
+  · obtain ⟨hr, _⟩ := h3 hj e
+    simp only [e, List.isEmpty_nil, if_true, hr, nthQ_unit]
+    by_cases d : i = dfl <;> simp [d, hi]
+  · have : (Ghost.init.run h).snap.isEmpty = false := by simpa using e
+    simp only [this, Bool.false_eq_true, if_false]
+    exact (h2 e).1 i hi
+
+/-! ### never-visited pairs keep the default (no precondition needed) -/
+
+theorem setQ_zeros_unit (w k : Nat) : setQ (zeros w) k 1 = unit w k := by
+  apply row_ext
+  · simp [length_setQ, length_zeros, length_unit]
+  · intro i hi
+    rw [length_setQ, length_zeros] at hi
+    simp only [nthQ_setQ, nthQ_zeros, nthQ_unit, length_zeros]
+    by_cases d : k = i
+    · subst d; simp [hi]
+    · have : ¬ i = k := fun x => d x.symm
+      simp [d, this]
+
+theorem ctor_true_of_zero (cfg : Cfg) (p : Pair) (h0 : p.cell.n = 0) :
+    p.ctor cfg true = { p with row := setQ (if cfg.ctorJunk then junkRow cfg p.idx p.cnt.length 0 else zeros p.cnt.length) p.dfl 1, rew := 0 } := by
+  have hq : ∀ r0 : List Rat, (({ p with row := r0, rew := 0 } : Pair).fullSync cfg) = { p with row := r0, rew := 0 } :=
+    fun r0 => fullSync_of_zero cfg _ h0
+  simp only [Pair.ctor, if_true, hq, h0]
+
+def isRecord : LOp → Bool
+  | .record .. => true
+  | _ => false
+
+/-- **unvisited_keep_default**: a pair on which nothing was ever recorded keeps the default unit row
+    (self-loop for the flat models) and reward 0 through every sequence of syncs of any form, resets
+    and model constructions with either flag — provided the constructor storage is initialised. -/
+theorem unvisited_keep_default (cfg : Cfg) (hj : cfg.ctorJunk = false) (w dfl idx : Nat) (h : List LOp)
+    (hnr : h.all (fun op => !isRecord op) = true) :
+    ((Pair.init w dfl idx).run cfg h).row = unit w dfl ∧ ((Pair.init w dfl idx).run cfg h).rew = 0 := by
+  suffices H : ∀ p : Pair, (p.cell.n = 0 ∧ p.cnt.length = w ∧ p.dfl = dfl ∧ p.row = unit w dfl ∧ p.rew = 0) →
+      ((p.run cfg h).row = unit w dfl ∧ (p.run cfg h).rew = 0) by
+    exact H _ ⟨rfl, by simp [Pair.init], rfl, rfl, rfl⟩
+  induction h with
+  | nil => intro p hp; exact ⟨hp.2.2.2.1, hp.2.2.2.2⟩
+  | cons op t ih =>
+    intro p ⟨h0, hl, hd, hr, hw⟩
+    simp only [List.all_cons, Bool.and_eq_true] at hnr
+    simp only [Pair.run, List.foldl_cons]
+    apply ih hnr.2
+    cases op with
+    | record s1 r => simp [isRecord] at hnr
+    | nop => exact ⟨h0, hl, hd, hr, hw⟩
+    | sync => simp only [Pair.step, fullSync_of_zero cfg p h0]; exact ⟨h0, hl, hd, hr, hw⟩
+    | syncInc s1 =>
+      simp only [Pair.step, incSync_eq_full cfg p s1 (by simp [h0]), fullSync_of_zero cfg p h0]
+      exact ⟨h0, hl, hd, hr, hw⟩
+    | reset => exact ⟨rfl, by simp [Pair.step, hl], hd, hr, hw⟩
+    | ctor b =>
+      cases b with
+      | false => exact ⟨by simpa [Pair.step] using h0, by simpa [Pair.step] using hl, by simpa [Pair.step] using hd,
+          by simp [Pair.step, Pair.ctor, hl, hd], by simp [Pair.step, Pair.ctor]⟩
+      | true =>
+        refine ⟨by simpa [Pair.step] using h0, by simpa [Pair.step] using hl, by simpa [Pair.step] using hd, ?_, ?_⟩
+        · simp only [Pair.step, ctor_true_of_zero cfg p h0, hj, Bool.false_eq_true, if_false, hl, hd, setQ_zeros_unit]
+        · simp only [Pair.step, ctor_true_of_zero cfg p h0]
+
+/-! ## §7 constructor and uninitialised storage -/
+
+theorem fullSync_junk_irrelevant (cfg : Cfg) (j' : Nat → Nat → Rat) (p : Pair) :
+    p.fullSync { cfg with junk := j' } = p.fullSync cfg := by
+  unfold Pair.fullSync copyRew; rfl
+
+theorem incSync_junk_irrelevant (cfg : Cfg) (j' : Nat → Nat → Rat) (p : Pair) (s1 : Nat) :
+    p.incSync { cfg with junk := j' } s1 = p.incSync cfg s1 := by
+  unfold Pair.incSync Pair.fullSync copyRew; rfl
+
+theorem fullSync_congr (c1 c2 : Cfg) (h : c1.rewTol = c2.rewTol) (p : Pair) : p.fullSync c1 = p.fullSync c2 := by
+  unfold Pair.fullSync copyRew; rw [h]
+
+theorem ctor_congr (c1 c2 : Cfg) (h : c1.rewTol = c2.rewTol) (hj1 : c1.ctorJunk = false) (hj2 : c2.ctorJunk = false)
+    (b : Bool) (p : Pair) : p.ctor c1 b = p.ctor c2 b := by
+  unfold Pair.ctor
+  simp only [hj1, hj2, Bool.false_eq_true, if_false]
+  rw [fullSync_congr c1 c2 h]
+
+/-- Full statement (does NOT hold for the dense constructor as written, see the counterexample below):
+      `∀ cfg j' p h, p.run { cfg with junk := j' } h = p.run cfg h`
+    — "the tables never depend on what the uninitialised storage held".
+    **ctor_independent_of_junk_partial**: it holds when the constructor storage is initialised
+    (`ctorJunk = false`: sparse and cooperative models, dense model constructed with `sync = false`, repaired dense model). -/
+theorem ctor_independent_of_junk_partial (cfg : Cfg) (hj : cfg.ctorJunk = false) (j' : Nat → Nat → Rat)
+    (p : Pair) (h : List LOp) : p.run { cfg with junk := j' } h = p.run cfg h := by
+  induction h generalizing p with
+  | nil => rfl
+  | cons op t ih =>
+    simp only [Pair.run, List.foldl_cons] at ih ⊢
+    have : p.step { cfg with junk := j' } op = p.step cfg op := by
+      cases op with
+      | ctor b =>
+        exact ctor_congr { cfg with junk := j' } cfg rfl hj hj b p
+      | sync => simp [Pair.step, fullSync_junk_irrelevant]
+      | syncInc s1 => simp [Pair.step, incSync_junk_irrelevant]
+      | _ => rfl
+    rw [this, ih]
+
+/-- even with uninitialised storage, the row of a pair that has data when the model is constructed
+    with `sync = true` does not depend on the junk (the full sync overwrites the whole row) -/
+theorem ctor_visited_independent_of_junk (cfg : Cfg) (j' : Nat → Nat → Rat) (p : Pair) (hn : p.cell.n ≠ 0) :
+    p.ctor { cfg with junk := j' } true = p.ctor cfg true := by
+  simp [Pair.ctor, Pair.fullSync, hn, copyRew]
+
+/-- the configuration of the dense model as written, with junk value `7` -/
+def cfgAsWritten : Cfg := { period := 10000, n1Clear := false, ctorJunk := true, junk := fun _ _ => 7, rewTol := none }
+
+/-- **ctor_junk_counterexample** (finding C07-ctor-uninit, replayed on the library by harness case 0):
+    S = 2, one action, pair (s=1) never visited, model constructed with `sync = true`:
+    the row is `[junk, 1]`, not the self-loop `[0, 1]`. -/
+theorem ctor_junk_counterexample :
+    ((Pair.init 2 1 1).run cfgAsWritten [.ctor true]).row = [7, 1] ∧
+    ¬ ((Pair.init 2 1 1).run cfgAsWritten [.ctor true]).row = unit 2 1 := by
+  decide
+
+/-- **inc_after_reset_counterexample** (finding C07-inc-after-reset, harness cases 1 and 2):
+    `record(·,1) record(·,2) sync() reset() record(·,1) sync(s,a,1)` respects the precondition
+    (one new record since the last sync) but the `visitSum == 1` branch as written leaves the stale `1/2`. -/
+theorem inc_after_reset_counterexample :
+    let h : List LOp := [.record 1 1, .record 2 2, .sync, .reset, .record 1 4, .syncInc 1]
+    incPre Ghost.init h = true ∧ wfAll 3 h = true ∧
+    ((Pair.init 3 0 0).run cfgAsWritten h).row = [0, 1, 1/2] ∧
+    (Ghost.init.run h).snap = [(1, 4)] := by
+  refine ⟨by decide, by decide, ?_, by decide⟩
+  norm_num [Pair.run, Pair.step, Pair.init, Cell.record, Cell.init, Pair.fullSync, Pair.incSync, cfgAsWritten, copyRew,
+    bump, setQ, unit, unitFrom, nthN, nthQ, List.replicate]
+
 end AITB.Exp
